@@ -21,8 +21,14 @@ def expect(c, what, cond, detail, rep):
 
 
 def sizes(c, r, maxfield):
-    base = [0, 1, 2, 255, 256] + ([65535, 65536] if maxfield >= 65535 and not c.quick else []) + ([1000, 5000] if maxfield >= 65535 else [])
+    base = [0, 1, 2, 255, 256] + ([65535, 65536] if maxfield >= 65535 and (not c.quick or r.chance(1, 3)) else []) + ([1000, 5000] if maxfield >= 65535 else [])
     return r.choice(base) if r.chance(2, 3) else r.below(min(maxfield + 2, 700))
+
+
+def big(r, n):
+    """n bytes, cheap to make: a random 61-byte block repeated"""
+    blk = r.bytes(61)
+    return (blk * (n // 61 + 1))[:n]
 
 
 def parts_of(r, total, n):
@@ -48,7 +54,7 @@ def campaign(c):
             parts, data = parts_of(r, total, r.below(4))
             if not parts: data = b''
             res, req = call_both(c, [[fn] + ['-=' + s(p) for p in parts]])
-            b = val_bytes(res[0]); rep = dict(req=req[:2000])
+            b = val_bytes(res[0]); rep = dict(req=req[:400000])
             if b is not None and len(data) < 256 ** w:
                 f = kv(parse(c, 'lenpfx:%d' % w, b))
                 expect(c, fn, f.get('body') == sh_hex(data) and f.get('rest') == '-', '%s does not declare exactly the bytes that follow (len %d)' % (fn, len(data)), rep)
@@ -67,7 +73,7 @@ def campaign(c):
             total = sizes(c, r, 65535); parts, data = parts_of(r, total, 1 + r.below(3))
             ver, ct = r.choice([0x0301, 0x0303, r.below(65536)]), r.below(256)
             res, req = call_both(c, [['tls::message', 'version=u16:%d' % ver, 'content=u8:%d' % ct] + ['-=' + s(p) for p in parts]])
-            b = val_bytes(res[0]); rep = dict(req=req[:2000])
+            b = val_bytes(res[0]); rep = dict(req=req[:400000])
             if b is not None and len(data) < 65536:
                 f = kv(parse(c, 'tlsrecord', b))
                 expect(c, 'tls::message', f.get('payload') == sh_hex(data) and f.get('content') == str(ct) and f.get('version') == str(ver) and f.get('rest') == '-', 'TLS record framing wrong', rep)
@@ -75,7 +81,7 @@ def campaign(c):
         elif k == 6:    # extension
             total = sizes(c, r, 65535); parts, data = parts_of(r, total, 1 + r.below(3)); ext = r.below(65536)
             res, req = call_both(c, [['tls::extension', '-=u16:%d' % ext] + ['-=' + s(p) for p in parts]])
-            b = val_bytes(res[0]); rep = dict(req=req[:2000])
+            b = val_bytes(res[0]); rep = dict(req=req[:400000])
             if b is not None and len(data) < 65536:
                 f = kv(parse(c, 'extension', b))
                 expect(c, 'tls::extension', f.get('data') == sh_hex(data) and f.get('ext') == str(ext) and f.get('rest') == '-', 'extension framing wrong', rep)
@@ -83,7 +89,7 @@ def campaign(c):
         elif k == 7:    # cipher list
             ids = [r.below(65536) for _ in range(r.choice([0, 1, 2, 17, 300]))]
             res, req = call_both(c, [['tls::ciphers'] + ['-=u16:%d' % x for x in ids]])
-            b = val_bytes(res[0]); rep = dict(req=req[:2000])
+            b = val_bytes(res[0]); rep = dict(req=req[:400000])
             if b is not None:
                 f = kv(parse(c, 'ciphers', b))
                 expect(c, 'tls::ciphers', f.get('ids') == ','.join(map(str, ids)) and f.get('rest') == '-', 'cipher list framing wrong', rep)
@@ -91,8 +97,11 @@ def campaign(c):
         elif k in (8, 9):   # sni / certificates
             fn, kind, fld = ('tls::sni', 'sni', 'names') if k == 8 else ('tls::certificates', 'certs', 'certs')
             items = [r.choice([r.bytes(r.choice([0, 1, 10, 255, 256, 1000])), b'www.example.com.', b'.', b'a.', b'..', b'x' * r.below(5) + b'.']) for _ in range(r.below(4))]
+            if k == 9 and r.chance(1, 4):
+                # 24-bit lengths beyond 16 bits: one big certificate, or a chain whose entries are each below 64 KiB
+                items = r.choice([[big(r, 65530)], [big(r, 65535)], [big(r, 65536)], [big(r, 40000), big(r, 30000), b'tail!'], [b'x', big(r, 70000)], [big(r, 65527), b'']])
             res, req = call_both(c, [[fn] + ['-=' + s(x) for x in items]])
-            b = val_bytes(res[0]); rep = dict(req=req[:2000])
+            b = val_bytes(res[0]); rep = dict(req=req[:400000])
             if b is not None:
                 f = kv(parse(c, kind, b))
                 expect(c, fn, f.get(fld, '') == ','.join(sh_hex(x) for x in items) and f.get('rest') == '-', '%s framing wrong' % fn, rep)
@@ -101,6 +110,8 @@ def campaign(c):
             client = k == 10
             sid = r.bytes(r.choice([0, 1, 32])); comp = r.bytes(r.choice([0, 1, 2])); ids = [r.below(65536) for _ in range(r.below(4))]
             exts = [(r.below(65536), r.bytes(r.choice([0, 1, 5, 300]))) for _ in range(r.below(3))]
+            if r.chance(1, 8):   # an extension block of (almost) 64 KiB: the hello needs all 24 bits of its handshake length
+                exts = r.choice([[(r.below(65536), big(r, 65531))], [(1, big(r, 30000)), (2, big(r, 35000))], [(7, big(r, 65000)), (8, b'ab')]])
             empties = r.choice([0, 0, 1, 2])          # extension arguments that are empty byte strings
             ver = r.choice([0x0303, 0x0301, r.below(65536)])
             use = dict(version=r.chance(1, 2), sessionid=r.chance(1, 2), ciphers=r.chance(1, 2), compression=r.chance(1, 2))
@@ -117,11 +128,13 @@ def campaign(c):
                        (['cipher=u16:%d' % cipher] if use['ciphers'] else []) + (['compression=u8:%d' % cm] if use['compression'] else []) + ['-=str:-'] * empties + ['-=$%d' % (3 + j) for j in range(len(exts))]
                 steps.append(['tls::server_hello'] + args)
             steps.append(['tls::message', '-=$%d' % base])
-            res, req = call_both(c, steps); rep = dict(req=req[:3000])
+            res, req = call_both(c, steps); rep = dict(req=req[:400000])
             b = val_bytes(res[base]); rec = val_bytes(res[base + 1])
             if b is not None:
                 f = kv(parse(c, 'clienthello' if client else 'serverhello', b))
                 extbytes = b''.join(e.to_bytes(2, 'big') + len(d).to_bytes(2, 'big') + d for e, d in exts)
+                if len(extbytes) > 65535:
+                    c.count('hello-ext-block-does-not-fit'); continue
                 ok = f.get('rest') == '-' and f.get('version') == str(ver if use['version'] else 0x0303) and \
                     f.get('sid') == sh_hex(sid if use['sessionid'] else b'') and f.get('ext') == (sh_hex(extbytes) if extbytes else 'absent')
                 if client:
@@ -141,7 +154,7 @@ def campaign(c):
         elif k == 12:   # dhcp option
             opt = r.below(256); total = sizes(c, r, 255); parts, data = parts_of(r, total, 1 + r.below(2))
             res, req = call_both(c, [['dhcp::option', '-=u8:%d' % opt] + ['-=' + s(p) for p in parts]])
-            b = val_bytes(res[0]); rep = dict(req=req[:2000])
+            b = val_bytes(res[0]); rep = dict(req=req[:400000])
             if b is not None and len(data) < 256:
                 f = kv(parse(c, 'dhcpopt', b))
                 expect(c, 'dhcp::option', f.get('opt') == str(opt) and f.get('data') == sh_hex(data) and f.get('rest') == '-', 'DHCP option framing wrong', rep)
@@ -150,7 +163,7 @@ def campaign(c):
             name = r.bytes(r.below(20)); total = sizes(c, r, 65535); parts, data = parts_of(r, total, 1 + r.below(2))
             t, cl, ttl = r.below(65536), r.below(65536), r.below(2 ** 32)
             res, req = call_both(c, [['dns::answer', '-=' + s(name), 'atype=u16:%d' % t, 'aclass=u16:%d' % cl, 'ttl=u32:%d' % ttl] + ['-=' + s(p) for p in parts]])
-            b = val_bytes(res[0]); rep = dict(req=req[:2000])
+            b = val_bytes(res[0]); rep = dict(req=req[:400000])
             if b is not None and len(data) < 65536:
                 f = kv(parse(c, 'rr:%d' % len(name), b))
                 expect(c, 'dns::answer', f.get('data') == sh_hex(data) and f.get('type') == str(t) and f.get('class') == str(cl) and f.get('ttl') == str(ttl) and f.get('rest') == '-', 'RR framing wrong', rep)
